@@ -18,6 +18,7 @@ pub fn install_panic_hook() {
     std::panic::set_hook(Box::new(|info| {
         let msg = if let Some(s) = info.payload().downcast_ref::<&str>() { s.to_string() }
             else if let Some(s) = info.payload().downcast_ref::<String>() { s.clone() } else { "?".to_string() };
+        if std::env::var("HC_DEBUG").is_ok() { eprintln!("panic: {} at {:?}", msg, info.location()); }
         LAST_PANIC.with(|p| *p.borrow_mut() = msg);
     }));
 }
